@@ -1,5 +1,6 @@
 import UralModel.Lemmas.C03Control
 import UralModel.Lemmas.CanonIdem
+import UralModel.Props.C01Whole
 import UralModel.Model.Normalize
 import UralModel.Gen.C03Classes
 /-!
@@ -19,8 +20,9 @@ interpreter's `str.strip` removes, as sorted ranges; the flags of the four
 `safely_unquote_*` partials), decided on the finite list of ranges and lifted to every code point
 by `C03Control.subRanges_sound`; (2) used: the printed result of `canonicalize_url` holds no
 character of either class, for every input string, both modes — except white space that was raw
-in the parsed hostname (the one component that is not unquoted: the KF-C02-2 class) —, so the
-cleaning pass of the next call is the identity on it.
+in the parsed hostname (the one component that is not unquoted), which never ends the printed
+string since /repo 16f182c —, so the cleaning pass of the next call is the identity on it
+(`clean_canonical`, full strength).
 -/
 namespace Ural.Props.C03
 open Ural Ural.Py Ural.UrlParts Ural.Quote Ural.Canonicalize Ural.UrlRoundTrip Ural.CanonRoundTrip
@@ -166,11 +168,11 @@ example :
 theorem isPunyBad_of_space {c : Char} (h : isSpace c = true) : isPunyBad c = true := by
   simp [isPunyBad, h]
 
-/-- **the canonical form holds no character the cleaning pass deletes** — every input string,
-both modes, every `strip_fragment`, every default protocol `urlsplit` reads as a scheme:
-no character of the class of `CONTROL_CHARS_RE` at all, and no white space of `str.strip`
-other than one that was raw in the parsed hostname (the hostname is lower-cased and
-punycode-decoded, not unquoted: `'http://a.com\xa0/'`, KF-C02-2). -/
+/-- **the canonical form holds no character the cleaning pass deletes** — every input string
+`canonicalize_url` accepts, both modes, every `strip_fragment`, every default protocol
+`urlsplit` reads as a scheme: no character of the class of `CONTROL_CHARS_RE` at all, and no
+white space of `str.strip` other than one that was raw in the parsed hostname (the hostname is
+lower-cased and punycode-decoded, not unquoted: `'http://a.com\xa0/x'`). -/
 theorem canonical_form_has_no_cleaned_character (puny : Str → Str) (hpc : PunyClean puny)
     (o : Canonicalize.Opts) (hdp : SchemeShaped (rstripChars o.defaultProtocol [':', '/']))
     (u r : Str) (hr : canonicalizeUrl puny o u = some r) :
@@ -178,87 +180,68 @@ theorem canonical_form_has_no_cleaned_character (puny : Str → Str) (hpc : Puny
     (∀ c ∈ r, isSpace c = true →
       ∃ p h0, parseUrl (Canonicalize.cleanUrl u o.defaultProtocol) = some p ∧
         p.hostname = some h0 ∧ c ∈ h0) := by
+  obtain ⟨p, ⟨hp, hui⟩, hr'⟩ := (Props.C01.canonicalize_accepts_iff puny o u r).1 hr
   obtain ⟨S, rest, hcl, _⟩ := cleanUrl_cleaned u o.defaultProtocol hdp
-  cases hp : parseUrl (Canonicalize.cleanUrl u o.defaultProtocol) with
-  | none => simp [canonicalizeUrl, canonicalizeSplit, hp] at hr
-  | some p =>
-    have hf := fromParse hcl hp
-    have hr' : r = urlunsplit (canonParts puny o.quoted o.stripFragment p) := by
-      simp only [canonicalizeUrl, canonicalizeSplit, hp, Option.map_some, Option.some.injEq] at hr
-      exact hr.symm
-    subst hr'
-    constructor
-    · intro c hc
-      cases hk : isControlChar c with
-      | false => rfl
-      | true =>
-        exfalso
-        obtain ⟨h0, hh, hch⟩ :=
-          class_of_printed hpc escapedClass_control o.quoted o.stripFragment hf hc hk (ctl_bad hk)
-        have hl := ((netlocFacts p.netloc).host_lower h0 (by rw [← hf.host]; exact hh)).1
-        have := hl.noCtl (noCtl_netloc_old hpc hf) c hch
-        rw [hk] at this; cases this
-    · intro c hc hk
-      obtain ⟨h0, hh, hch⟩ :=
-        class_of_printed hpc escapedClass_space o.quoted o.stripFragment hf hc hk
-          (isPunyBad_of_space hk)
-      exact ⟨p, h0, rfl, hh, hch⟩
-
-/-- the full statement of "cleaning the canonical form changes nothing": no side condition -/
-def FullCleanCanonical : Prop :=
-  ∀ (puny : Str → Str), PunyClean puny → ∀ (o : Canonicalize.Opts),
-    SchemeShaped (rstripChars o.defaultProtocol [':', '/']) →
-    ∀ (u r : Str), canonicalizeUrl puny o u = some r → strip (stripControl r) = r
-
-/-- **cleaning the canonical form changes nothing that the first cleaning did not already
-remove**: `CONTROL_CHARS_RE.sub("", r).strip() == r` for the result `r` of `canonicalize_url` on
-ANY input string, both modes — PARTIAL: when the parsed hostname of the (cleaned) input holds no
-white space (the excluded region really fails: next theorem) -/
-theorem clean_canonical_partial (puny : Str → Str) (hpc : PunyClean puny)
-    (o : Canonicalize.Opts) (hdp : SchemeShaped (rstripChars o.defaultProtocol [':', '/']))
-    (u r : Str) (hr : canonicalizeUrl puny o u = some r)
-    (hhost : ∀ p h0, parseUrl (Canonicalize.cleanUrl u o.defaultProtocol) = some p →
-      p.hostname = some h0 → ∀ c ∈ h0, isSpace c = false) :
-    strip (stripControl r) = r := by
-  obtain ⟨hctl, hsp⟩ := canonical_form_has_no_cleaned_character puny hpc o hdp u r hr
-  have hns : ∀ c ∈ r, isSpace c = false := by
-    intro c hc
-    cases hk : isSpace c with
+  have hf := fromParse hcl hp
+  subst hr'
+  constructor
+  · intro c hc
+    cases hk : isControlChar c with
     | false => rfl
     | true =>
-      obtain ⟨p, h0, hp, hh, hch⟩ := hsp c hc hk
-      rw [hhost p h0 hp hh c hch] at hk; cases hk
+      exfalso
+      obtain ⟨h0, hh, hch⟩ :=
+        class_of_printed hpc escapedClass_control o.quoted o.stripFragment hf hc hk (ctl_bad hk)
+      have hl := ((netlocFacts p.netloc).host_lower h0 (by rw [← hf.host]; exact hh)).1
+      have := hl.noCtl (noCtl_netloc_old hpc hf) c hch
+      rw [hk] at this; cases this
+  · intro c hc hk
+    obtain ⟨h0, hh, hch⟩ :=
+      class_of_printed hpc escapedClass_space o.quoted o.stripFragment hf hc hk
+        (isPunyBad_of_space hk)
+    exact ⟨p, h0, hp, hh, hch⟩
+
+/-- **cleaning the canonical form changes nothing**: `CONTROL_CHARS_RE.sub("", r).strip() == r`
+for the result `r` of `canonicalize_url` on ANY input string it accepts — both modes, every
+`strip_fragment`, no side condition (full strength).  No control character (above); the first
+character is a letter of the scheme; the last one is no white space: path, query and fragment
+hold none (the table obligations), a port is digits, a bracketed host ends with `]`, and a bare
+host ending with white space is followed by a slash (FX-C02-16f182c — before that fix this was
+the known finding KF-C02-2 and the statement failed on `'http://a.com\xa0/'`). -/
+theorem clean_canonical (puny : Str → Str) (hpc : PunyClean puny)
+    (o : Canonicalize.Opts) (hdp : SchemeShaped (rstripChars o.defaultProtocol [':', '/']))
+    (u r : Str) (hr : canonicalizeUrl puny o u = some r) :
+    strip (stripControl r) = r := by
+  obtain ⟨hctl, _⟩ := canonical_form_has_no_cleaned_character puny hpc o hdp u r hr
+  obtain ⟨p, ⟨hp, hui⟩, hr'⟩ := (Props.C01.canonicalize_accepts_iff puny o u r).1 hr
+  obtain ⟨S, rest, hcl, _⟩ := cleanUrl_cleaned u o.defaultProtocol hdp
+  have hf := fromParse hcl hp
+  subst hr'
   rw [stripControl_id hctl]
   apply strip_id
   · intro c hc
-    cases r with
-    | nil => cases hc
-    | cons d t => simp only [List.head?_cons, Option.some.injEq] at hc; subst hc; exact hns _ (by simp)
-  · intro c hc
-    exact hns c (List.mem_of_getLast? hc)
+    rw [printed_eq hpc o.quoted o.stripFragment hf] at hc
+    obtain ⟨⟨d, t, e, hd⟩, _⟩ := hf.shaped
+    rw [e] at hc
+    simp only [Py.lower, List.map_cons, List.cons_append, List.head?_cons, Option.some.injEq] at hc
+    subst hc
+    exact alpha_not_space (isAsciiAlpha_lowerChar hd)
+  · exact printed_last_modes hpc escapedClass_space o.quoted o.stripFragment hf
 
 /-- **the whole cleaning pass of `normalize_url` is the identity on the canonical form**
 (`CONTROL_CHARS_RE.sub`, `strip`, `upper_quoted`: `Normalize.preClean`), unquoted mode — so
 `normalize_url(canonicalize_url(u))` parses exactly the string `canonicalize_url` printed, and the
 component theorems of `Props/C03.lean` (`normalize_canonicalize_partial`, hypothesis `Reparses`)
-apply to it.  PARTIAL: the region of `Props/C02Whole.lean` `canonicalize_idempotent_partial`
-(default protocol of 1–64 letters, bracket conditions, no `%` in the host, an authority is
-printed) with its hypothesis on the last character replaced by: no white space in the parsed
-hostname. -/
+apply to it.  PARTIAL: a default protocol made of letters (`https`, `http://` …) and no `%` in
+the parsed hostname (the host is lower-cased where the cleaning pass upper-cases escapes: the
+hypothesis of `Props/C02Whole.lean` `canonicalize_idempotent_partial`). -/
 theorem normalize_cleaning_canonical_partial (puny : Str → Str) (hpc : PunyClean puny)
     (dp : Str) (sf : Bool)
     (hdp : rstripChars dp [':', '/'] ≠ [] ∧ (∀ c ∈ rstripChars dp [':', '/'], isAsciiAlpha c = true) ∧
       (rstripChars dp [':', '/']).length ≤ 64)
-    (u : Str) (p : Parsed) (hp : parseUrl (Canonicalize.cleanUrl u dp) = some p)
-    (hnb : NoOddBracket p)
-    (hbr : ':' ∈ strOf (canonComps puny false sf p).host →
-      bracketedHostOk (strOf (canonComps puny false sf p).host) = true)
-    (hpct : ∀ h0, p.hostname = some h0 → '%' ∉ h0)
-    (hnl : (canonParts puny false sf p).netloc ≠ [] ∨
-      inTable usesNetloc20 (canonParts puny false sf p).scheme = true)
-    (hhost : ∀ h0, p.hostname = some h0 → ∀ c ∈ h0, isSpace c = false) :
-    Normalize.preClean (urlunsplit (canonParts puny false sf p)) =
-      urlunsplit (canonParts puny false sf p) := by
+    (u r : Str) (hr : canonicalizeUrl puny ⟨dp, false, sf⟩ u = some r)
+    (hpct : ∀ p, parseUrl (Canonicalize.cleanUrl u dp) = some p → ∀ h0, p.hostname = some h0 → '%' ∉ h0) :
+    Normalize.preClean r = r := by
   have hsch : SchemeShaped (rstripChars dp [':', '/']) := by
     obtain ⟨hne, hall, _⟩ := hdp
     constructor
@@ -268,45 +251,38 @@ theorem normalize_cleaning_canonical_partial (puny : Str → Str) (hpc : PunyCle
     · apply List.all_eq_true.2
       intro c hc
       simp [isSchemeChar, hall c hc]
+  have hclean := clean_canonical puny hpc ⟨dp, false, sf⟩ hsch u r hr
+  obtain ⟨p, ⟨hp, hui⟩, hr'⟩ := (Props.C01.canonicalize_accepts_iff puny ⟨dp, false, sf⟩ u r).1 hr
+  simp only at hp hr'
   obtain ⟨S, rest, hcl, hletters⟩ := cleanUrl_cleaned u dp hsch
   have hS := hletters hdp.2.1 hdp.2.2
   have hf := fromParse hcl hp
   have hup := upFacts hcl (upperEsc_cleanUrl u dp hdp.2.1) hp
-  have hok := netlocOk_new hpc false sf hf hnb hbr
-  have hwf := CanonRoundTrip.canonParts_wf hpc false sf hf hok
-  have heq := printed_eq hpc sf hf hwf hnl
+  have heq := printed_eq hpc false sf hf
   have hlow : ∀ c ∈ lower S, isAsciiAlpha c = true := by
     intro c hc
     simp only [Py.lower, List.mem_map] at hc
     obtain ⟨d, hd, rfl⟩ := hc
     exact isAsciiAlpha_lowerChar (hS.1 d hd)
-  have hup' : UpperEsc (urlunsplit (canonParts puny false sf p)) := by
-    rw [heq]
+  have hup' : UpperEsc r := by
+    rw [hr', heq]
     have ss : Sep '/' := ⟨by decide, by decide⟩
     exact (upperEsc_append_sep ⟨by decide, by decide⟩ _ _).2
       ⟨upperEsc_of_no_pct (alpha_no_pct hlow),
         (upperEsc_cons_sep ss _).2 ((upperEsc_cons_sep ss _).2
-          (upperEsc_printed_body hpc sf hf hup pathIdem hpct))⟩
-  have hclean := clean_canonical_partial puny hpc ⟨dp, false, sf⟩ hsch u
-    (urlunsplit (canonParts puny false sf p))
-    (by simp [canonicalizeUrl, canonicalizeSplit, hp])
-    (fun p' h0 hp' hh => by
-      have e : p' = p := by
-        have : some p = some p' := by rw [← hp]; exact hp'
-        exact (Option.some.inj this).symm
-      subst e; exact hhost h0 hh)
+          (upperEsc_printed_body hpc sf hf hup pathIdem (hpct p hp)))⟩
   unfold Normalize.preClean
   rw [hclean, upperQuoted_of_upperEsc hup']
 
-/-- the excluded region really fails, on the model as on the implementation (KF-C02-2): a
-hostname ending with a raw no-break space and nothing printed after it -/
-theorem not_fullCleanCanonical : ¬ FullCleanCanonical := by
-  intro h
-  have h1 := h id punyClean_id ⟨"https".toList, false, false⟩ (by
-      refine ⟨⟨'h', "ttps".toList, by decide +kernel, by decide +kernel⟩, by decide +kernel⟩)
-    ['h','t','t','p',':','/','/','a','.','c','o','m',Char.ofNat 0xa0,'/']
-    ['h','t','t','p',':','/','/','a','.','c','o','m',Char.ofNat 0xa0] (by decide +kernel)
-  revert h1
+/-- the former witness of KF-C02-2 (and of the KF-C03-6 this work had recorded before /repo
+16f182c): a hostname ending with a raw no-break space keeps its slash, the cleaning pass leaves
+the canonical form alone -/
+example :
+    canonicalizeUrl id ⟨"https".toList, false, false⟩
+        ['h','t','t','p',':','/','/','a','.','c','o','m',Char.ofNat 0xa0,'/'] =
+      some ['h','t','t','p',':','/','/','a','.','c','o','m',Char.ofNat 0xa0,'/'] ∧
+    strip (stripControl ['h','t','t','p',':','/','/','a','.','c','o','m',Char.ofNat 0xa0,'/']) =
+      ['h','t','t','p',':','/','/','a','.','c','o','m',Char.ofNat 0xa0,'/'] := by
   decide +kernel
 
 /-- the canonical form of the next example: the zero-width space and the BOM are decoded (they
